@@ -4,7 +4,7 @@
 //   u1  seed N count                       -> "ok" the first `count` values of uniform(0, 1/N) on mt19937_64(seed)
 //   rs  seed N lin circ quat w_0..w_{N-1}  -> Resampling::resample / neff on a set with distinct columns
 //   rwp seed N lin circ quat ratio w_0..   -> ResamplingWithPrior::resample with a deterministic initialiser
-//   sis seed N lin circ K D u.. w.. x.. (cmd freeze valid l_0..l_{N-1}) x K
+//   sis seed N lin circ K D prior ratio u.. w.. x.. (cmd freeze valid l_0..l_{N-1}) x K
 //                                          -> the real SIS filter thread, scripted models, K steps
 //
 // The draw `u1` is obtained from a twin generator (same seed, same distribution) run in lock-step.
@@ -228,6 +228,36 @@ struct SResampling : public Resampling {
     std::mt19937_64 twin_; long n_; ResLog* log_;
 };
 
+// initialiser of the prior-mixing resampler: fresh particle j has first state entry 5e6 + j
+struct PInit : public ParticleSetInitialization {
+    bool initialize(ParticleSet& p) override {
+        for (long i = 0; i < (long)p.state().cols(); ++i)
+            for (long r = 0; r < p.state().rows(); ++r) p.state()(r, i) = 5.0e6 + i + 0.001953125 * r;
+        p.weight().setConstant(-1.0);
+        return true;
+    }
+};
+
+struct SResamplingPrior : public ResamplingWithPrior {
+    SResamplingPrior(unsigned int seed, long n, double ratio, ResLog* log)
+        : ResamplingWithPrior(std::unique_ptr<ParticleSetInitialization>(new PInit()), ratio, seed), twin_(seed),
+          m_(n - static_cast<long>(std::floor(n * ratio))), log_(log) {}
+    void resample(const ParticleSet& cor, ParticleSet& res, Ref<VectorXi> par) override {
+        double u1 = twin_u1(twin_, m_);
+        log_->called = true; log_->u1 = u1; log_->u1ok = (u1 > 0.0 && u1 < 1.0 / m_); ++log_->res_calls;
+        log_->cor_state = cor.state();
+        log_->cs.clear(); for (long i = 0; i < cor.state().cols(); ++i) log_->cs.push_back(cor.state().rows() ? cor.state()(0, i) : 0.0);
+        ResamplingWithPrior::resample(cor, res, par);
+        log_->parents.assign(par.data(), par.data() + par.size());
+    }
+    double neff(const Ref<const VectorXd>& w) override {
+        double v = Resampling::neff(w); log_->neff = v; ++log_->neff_calls;
+        log_->cw.assign(w.data(), w.data() + w.size());
+        return v;
+    }
+    std::mt19937_64 twin_; long m_; ResLog* log_;
+};
+
 struct SSIS : public SIS {
     SSIS(Script* s, ResLog* log, unsigned int n, std::size_t lin, std::size_t circ,
          std::unique_ptr<ParticleSetInitialization> i, std::unique_ptr<PFPrediction> p, std::unique_ptr<PFCorrection> c, std::unique_ptr<Resampling> r)
@@ -265,8 +295,17 @@ struct SSIS : public SIS {
             bool copies = (long)log_->parents.size() == (long)c.state().cols() && log_->cor_state.rows() == c.state().rows();
             for (long j = 0; copies && j < c.state().cols(); ++j) {
                 long q = log_->parents[j];
+                MatrixXd a = c.state().col(j);
+                if (prior_) {
+                    // parent -1: the fresh draw j of the initialisation model; otherwise a copy of some corrected column
+                    bool found = false;
+                    if (q == -1) { found = true; for (long r = 0; r < a.rows(); ++r) if (a(r, 0) != 5.0e6 + j + 0.001953125 * r) found = false; }
+                    else for (long i = 0; i < log_->cor_state.cols() && !found; ++i) { MatrixXd bcol = log_->cor_state.col(i); if (vh::same_bits(a, bcol)) found = true; }
+                    if (!found) copies = false;
+                    continue;
+                }
                 if (q < 0 || q >= log_->cor_state.cols()) { copies = false; break; }
-                MatrixXd a = c.state().col(j), bcol = log_->cor_state.col(q);
+                MatrixXd bcol = log_->cor_state.col(q);
                 if (!vh::same_bits(a, bcol)) copies = false;
             }
             rows_ok = rows_ok && copies;
@@ -281,12 +320,15 @@ struct SSIS : public SIS {
         o.n(p.state().cols()); for (long i = 0; i < p.state().cols(); ++i) o.d(p.state().rows() ? p.state()(0, i) : 0.0);
         blocks.push_back(o.str());
     }
-    Script* s_; ResLog* log_; bool skip_ok_ = true, copies_ok_ = true; std::vector<std::string> blocks;
+    Script* s_; ResLog* log_; bool skip_ok_ = true, copies_ok_ = true, prior_ = false; std::vector<std::string> blocks;
 };
 
 static std::string op_sis(Toks& t) {
     Script sc; ResLog log;
     unsigned long seed = t.nat(); long n = t.nat(), lin = t.nat(), circ = t.nat(), K = t.nat(), D = t.nat();
+    bool prior = t.flag(); double ratio = t.dbl();
+    long m = prior ? n - static_cast<long>(std::floor(n * ratio)) : n;      // the resampler draws from uniform(0, 1/m)
+    if (m < 1) throw vh::BadArgs("ratio");
     sc.N = n; sc.K = K;
     VectorXd us = t.vec(D);
     sc.w0 = t.vec(n); sc.x0 = t.vec(n);
@@ -296,12 +338,15 @@ static std::string op_sis(Toks& t) {
     t.done();
     // the draws handed to the model are the twin generator's
     std::mt19937_64 g(static_cast<unsigned int>(seed)); bool us_ok = true;
-    for (long i = 0; i < D; ++i) { double u = twin_u1(g, n); if (vh::hx(u) != vh::hx(us(i))) us_ok = false; }
+    for (long i = 0; i < D; ++i) { double u = twin_u1(g, m); if (vh::hx(u) != vh::hx(us(i))) us_ok = false; }
     std::unique_ptr<ParticleSetInitialization> init(new SInit(&sc));
     std::unique_ptr<PFPrediction> pred(new DrawParticles(std::unique_ptr<StateModel>(new SState(&sc, lin, circ))));
     std::unique_ptr<PFCorrection> corr(new BootstrapCorrection(std::unique_ptr<MeasurementModel>(new SMeas(&sc)), std::unique_ptr<LikelihoodModel>(new SLik(&sc))));
-    std::unique_ptr<Resampling> res(new SResampling(static_cast<unsigned int>(seed), n, &log));
+    std::unique_ptr<Resampling> res;
+    if (prior) res.reset(new SResamplingPrior(static_cast<unsigned int>(seed), n, ratio, &log));
+    else res.reset(new SResampling(static_cast<unsigned int>(seed), n, &log));
     SSIS f(&sc, &log, (unsigned int)n, lin, circ, std::move(init), std::move(pred), std::move(corr), std::move(res));
+    f.prior_ = prior;
     bool ok = f.boot();
     f.run();
     ok = f.wait() && ok;
